@@ -2,7 +2,7 @@
 quick_scale() {
   case "$1" in
     C01) VERIF_SCALE=1500 ;; C02) VERIF_SCALE=300 ;;  C03) VERIF_SCALE=120 ;;  C04) VERIF_SCALE=400 ;;
-    C05) VERIF_SCALE=600 ;;  C06) VERIF_SCALE=1200 ;; C07) VERIF_SCALE=800 ;;  C08) VERIF_SCALE=400 ;;
+    C05) VERIF_SCALE=600 ;;  C06) VERIF_SCALE=600 ;;  C07) VERIF_SCALE=800 ;;  C08) VERIF_SCALE=400 ;;
     C09) VERIF_SCALE=150 ;;  C10) VERIF_SCALE=800 ;;  C11) VERIF_SCALE=300 ;;  C12) VERIF_SCALE=400 ;;
     C13) VERIF_SCALE=1200 ;; C14) VERIF_SCALE=400 ;;  C15) VERIF_SCALE=1000 ;; C16) VERIF_SCALE=600 ;;
     C17) VERIF_SCALE=800 ;;  C18) VERIF_SCALE=1000 ;; C19) VERIF_SCALE=300 ;;  C20) VERIF_SCALE=100 ;;
